@@ -429,12 +429,29 @@ pub fn destructure_shape(shape: u8, toks: Vec<Tok>) -> Vec<Tok> {
             konst::destructure! {crate::worlds::byvalue_ops::S3 {x, y, z} = v}
             vec![x, y, z]
         }
-        _ => {
+        22 => {
             let v = [nx()];
             konst::destructure! {[a] = v}
             let w = [nx()];
             konst::destructure! {[_] = w}
             vec![a]
+        }
+        23 => {
+            // fields are matched by name: the tokens must come back as (x, y, z) = (1st, 2nd, 3rd)
+            let v = S3 { x: nx(), y: nx(), z: nx() };
+            konst::destructure! {S3 {z, x, y} = v}
+            vec![x, y, z]
+        }
+        24 => {
+            let v = T3(nx(), nx(), nx());
+            konst::destructure! {T3(a, _, c) = v}
+            vec![a, c]
+        }
+        _ => {
+            let v = [nx(), nx()];
+            konst::destructure! {[a, rest @ .., z] = v}
+            let _rest: [Tok; 0] = rest;
+            vec![a, z]
         }
     }
 }
